@@ -37,10 +37,20 @@ func pkgName(dir string) string {
 	return filepath.Base(dir)
 }
 
-// primsSource is the body-less declaration file of the harness primitives, generated per package.
-func primsSource(pkg string) []byte {
-	return []byte(`package ` + pkg + `
-
+// primsSource is the declaration file of the harness primitives, generated per package.
+// symbolic variant: body-less declarations intercepted by the symbolic executor;
+// native variant: bodies that replay a recorded vector (translator validation, native.go).
+func primsSource(pkg string, native bool) []byte {
+	httpPkgs := pkg == "queryer" || pkg == "pebbles"
+	if !native {
+		src := `package ` + pkg + `
+`
+		if httpPkgs {
+			src += `
+import "net/http"
+`
+		}
+		src += `
 // harness primitives intercepted by the symbolic executor (symgo)
 func verifInt(name string, lo, hi int) int
 func verifBool(name string) bool
@@ -58,7 +68,31 @@ func verifConcInt(x int) int
 func verifConcStr(s string) string
 func verifLog(s string)
 func verifGoroutines() int
-`)
+func verifClosure(name string, env ...interface{}) interface{}
+`
+		if httpPkgs {
+			src += `func verifRequestBody(r *http.Request) []byte
+func verifSetMultipart(req *http.Request, fieldNames, fieldValues, fileKeys, fileNames, fileContents []string)
+func verifRequestMultipart(req *http.Request) map[string]interface{}
+
+// vNativeTransport routes a real http.Client to the harness transport in native runs (the symbolic
+// executor intercepts (*http.Client).Do before any transport is consulted)
+type vNativeTransport struct{ do func(*http.Request) (*http.Response, error) }
+
+func (t vNativeTransport) RoundTrip(r *http.Request) (*http.Response, error) {
+	if r.Host == "" && r.URL != nil {
+		r.Host = r.URL.Host
+		if r.Host == "" {
+			r.Host = r.URL.String() // service "URLs" of the harness are bare names
+		}
+	}
+	return t.do(r)
+}
+`
+		}
+		return []byte(src)
+	}
+	return []byte(nativePrims(pkg, httpPkgs))
 }
 
 type loaded struct {
@@ -130,6 +164,7 @@ type KernelResult struct {
 	Inconclusive  []*Violation      `json:"inconclusive,omitempty"`
 	CrossCheck    map[string]string `json:"solver_cross_check,omitempty"`
 	NativeValidated int             `json:"native_runs_agreeing"`
+	NativeVectors   int             `json:"native_vectors_replayed"`
 }
 
 func paramsFor(k *Kernel, tier string) map[string]int {
@@ -194,6 +229,7 @@ func runKernel(l *loaded, k *Kernel, tier string, seed int64) *KernelResult {
 	if !k.NoInit {
 		ex.inits = []*ssa.Function{hp.Func("init")}
 	}
+	ex.wantNative = k.Native && os.Getenv("SYMGO_NO_NATIVE") == ""
 	ex.Run()
 	res := &KernelResult{Kernel: k.Name, Entry: k.Pkg + "." + k.Entry, Mode: cfg.Mode, Params: params, Paths: ex.paths, States: ex.nvisited, Steps: ex.steps,
 		Obligations: ex.obls, Ends: ex.ends, Reach: ex.reached, Samples: ex.samples, WallS: time.Since(t0).Seconds(), Incomplete: ex.incomplete}
@@ -241,6 +277,14 @@ func runKernel(l *loaded, k *Kernel, tier string, seed int64) *KernelResult {
 	sortViol(res.Violations)
 	sortViol(res.Known)
 	sortViol(res.Inconclusive)
+	if ex.wantNative {
+		agree, bad := nativeValidate(k, ex.vectors)
+		res.NativeValidated = agree
+		res.NativeVectors = len(ex.vectors)
+		for _, b := range bad {
+			res.Inconclusive = append(res.Inconclusive, &Violation{Kind: "inconclusive", Msg: "translator validation: " + b, Count: 1})
+		}
+	}
 	res.Exhaustive = ex.incomplete == "" && len(res.Inconclusive) == 0
 	// false twin: replay the first completed path with an injected failing assertion at the end
 	if len(ex.samples) > 0 {
@@ -298,7 +342,7 @@ func harnessOverlay(ks []*Kernel) map[string][]byte {
 		if dir == "." {
 			dir = ""
 		}
-		ov[filepath.Join("/repo", dir, "zz_verif_prims.go")] = primsSource(pkgName(k.Pkg))
+		ov[filepath.Join("/repo", dir, "zz_verif_prims.go")] = primsSource(pkgName(k.Pkg), false)
 		for _, f := range k.Files {
 			src, err := os.ReadFile(filepath.Join(verifRoot, "harness", f))
 			if err != nil {
